@@ -59,7 +59,7 @@ def observe(cases, with_values=True, with_spec=True, orders=None):
         for c in cases:
             reqs.append('groups\t' + c.invocation().replace('\n', ' '))
             probes = '@@'.join('%s for %s' % (('%s<%s>' % (c.trait_name, p[0]) if p[0] else c.trait_name) if c.trait_name else '-', p[1]) for p in c.probes)
-            reqs.append('world\t%s\t%s' % (gp.world_text(c.world).replace('\n', ' '), probes))
+            reqs.append('world\t%s\t%s' % ((gp.world_text(c.world) + getattr(c, 'extra_world', '')).replace('\n', ' '), probes))
         resp = cm.run_hook(reqs, exe_hook)
         mreq, midx = [], []
         for i in range(n):
